@@ -5,6 +5,8 @@
  *  VSHIM_ROOT=<prefix>    only paths under this prefix are numbered / logged / faulted
  *  VSHIM_FAIL=<call>:<substr>:<k>:<errno>   fail the k-th (1-based) call of that kind (pread|pwrite|open|fsync|ftruncate|
  *                         fallocate|rename) on a path containing <substr> with errno (k = 0: every call); several separated by ','
+ *                         for pwrite the <errno> field may be `short=<n>`: the call transfers only n bytes (n < len) and
+ *                         returns n without touching errno (a short count: how a filling disk shows up)
  *  VSHIM_KILL=<n>[:before|after|short]   kill the process (SIGKILL) at the n-th numbered state-changing call
  *  VSHIM_KILL_ON=<call>:<substr>:<k>[:before|after]   kill at the k-th numbered call of that kind on a path containing <substr>
  *  VSHIM_TIME=<epoch>     time() returns this value (plus the seconds elapsed since the first call if VSHIM_TIME_RUN=1)
@@ -72,7 +74,7 @@ static void init(void)
 			char *a = tok, *b = strchr(a, ':'), *c, *d;
 			if (!b) continue; *b++ = 0; c = strchr(b, ':'); if (!c) continue; *c++ = 0; d = strchr(c, ':'); if (!d) continue; *d++ = 0;
 			snprintf(f->call, sizeof f->call, "%s", a); snprintf(f->sub, sizeof f->sub, "%s", b);
-			f->k = atol(c); f->err = atoi(d); f->seen = 0; ++nfails;
+			f->k = atol(c); f->err = !strncmp(d, "short=", 6) ? -1 - atoi(d + 6) : atoi(d); f->seen = 0; ++nfails;
 		}
 	}
 }
@@ -183,7 +185,13 @@ ssize_t pwrite(int fd, const void *buf, size_t len, off_t off)
 	const char *p; int e; long n; ssize_t r; char extra[64];
 	init(); p = getfd(fd);
 	if (!p) return real(fd, buf, len, off);
-	if ((e = should_fail("pwrite", p))) { errno = e; logline(0, "pwrite", p, "INJECTED-ERROR", -1); return -1; }
+	if ((e = should_fail("pwrite", p))) {
+		if (e < 0) { /* short count: -1 - n encodes n */
+			int saved = errno; size_t cnt = (size_t)(-1 - e); if (cnt > len) cnt = len;
+			r = real(fd, buf, cnt, off); logline(0, "pwrite", p, "INJECTED-ERROR short", (long)r); errno = saved; return r;
+		}
+		errno = e; logline(0, "pwrite", p, "INJECTED-ERROR", -1); return -1;
+	}
 	n = number("pwrite", p);
 	if (n == kill_at && kill_mode == 2) { real(fd, buf, len / 2, off); logline(n, "pwrite", p, "KILL-SHORT", (long)(len / 2)); kill(getpid(), SIGKILL); }
 	r = real(fd, buf, len, off);
